@@ -10,10 +10,10 @@ from pv import tlc
 from pv import weak
 
 C04_FAMILIES = ('fermat', 'highlow', 'upperdiff', 'unseeded')
-C05_FAMILIES = ('pattern', 'permuted', 'cf', 'lhw', 'pm1', 'pm1cover')
+C05_FAMILIES = ('pattern', 'permuted', 'cf', 'lhw', 'lhwslow', 'pm1', 'pm1cover', 'pm1pow')
 CHECK_OF = {'fermat': ['CheckFermat'], 'highlow': ['CheckFermat', 'CheckHighAndLowBitsEqual'], 'upperdiff': ['CheckSmallUpperDifferences'],
             'unseeded': ['CheckUnseededRand'], 'pattern': ['CheckBitPatterns'], 'permuted': ['CheckPermutedBitPatterns'],
-            'cf': ['CheckContinuedFractions'], 'lhw': ['CheckLowHammingWeight'], 'pm1': ['CheckPollardpm1'], 'pm1cover': ['CheckPollardpm1']}
+            'cf': ['CheckContinuedFractions'], 'lhw': ['CheckLowHammingWeight'], 'pm1': ['CheckPollardpm1'], 'pm1cover': ['CheckPollardpm1'], 'lhwslow': ['CheckLowHammingWeight'], 'pm1pow': ['CheckPollardpm1']}
 
 
 def grid(ctx):
@@ -89,6 +89,10 @@ def build(cell, inst):
     return weak.lhw_key(rng, aid, cell['bits'], cell['h1'], cell['h2'])
   if f == 'pm1':
     return weak.pm1_key(rng, aid, cell['bits'], cell['shared'], cell['mode'])
+  if f == 'pm1pow':
+    return weak.pm1_power_key(rng, aid, cell['bits'], cell['kind'])
+  if f == 'lhwslow':
+    return weak.lhw_slow_starter(rng, aid)
   if f == 'pm1cover':
     return weak.pm1_cover_key(rng, aid, 2048, cell['kind'], cell['block'])
   raise ValueError(f)
@@ -163,8 +167,8 @@ def run_family_check(ctx, prop, families, instances):
   cells = [c for c in grid(ctx) if c['family'] in families]
   if 'unseeded' in families:
     cells += unseeded_cells(ctx.quick)
-  jobs = [(c, i, prop) for c in cells for i in range(1 if c['family'] == 'pm1cover' else instances)]
-  jobs += [(c, 0, prop, 'after-noise') for c in cells if c['family'] not in ('lhw', 'pm1cover')]
+  jobs = [(c, i, prop) for c in cells for i in range(1 if c['family'] in ('pm1cover', 'lhwslow') else instances)]
+  jobs += [(c, 0, prop, 'after-noise') for c in cells if c['family'] not in ('lhw', 'lhwslow', 'pm1cover')]
   if ctx.only_sid:
     jobs = [j for j in jobs if ctx.only_sid.startswith('%s-%s-%s-i%d' % (prop, j[0]['family'], cell_id(j[0]), j[1]))]
   mpctx = mp.get_context('fork')
